@@ -8,7 +8,7 @@ EXTENDS Simulator
 Cases == ndJsonDeserialize(IOEnv.TRACE_FILE)
 
 TraceInit == \E k \in 1..Len(Cases) :
-                /\ mode = Cases[k].mode /\ hs = Cases[k].hs /\ plan = Cases[k].plan /\ lims = Cases[k].lims
+                /\ stage = "done" /\ mode = Cases[k].mode /\ hs = Cases[k].hs /\ plan = Cases[k].plan /\ lims = Cases[k].lims
                 /\ msgs = Cases[k].msgs /\ sent = Cases[k].sent /\ ret = Cases[k].ret /\ raised = Cases[k].raised
 TraceSpec == TraceInit /\ [][Next]_vars
 
